@@ -12,6 +12,7 @@ INVARIANTS
   ExitFaithful
   ExitAgrees
   BoundCurrent
+  FixtureIntact
   NoCovNoDeviation
   HitsAreRegistered
   EmitInv
